@@ -106,7 +106,12 @@ Definition hwloc_distrib (roots : list (bset * obj)) (n : N) (until : Z) (flags 
   if (n =? 0) || negb (N.ldiff flags HWLOC_DISTRIB_FLAG_REVERSE =? 0) then ((-1)%Z, 1, D_ok [])
   else
     let rv := negb (N.land flags HWLOC_DISTRIB_FLAG_REVERSE =? 0) in
-    (0%Z, 0, match distrib_loop until rv (map (fun r => entry_of until rv (fst r) (snd r)) roots) n with
+    let es := map (fun r => entry_of until rv (fst r) (snd r)) roots in
+    (* if (!tot_weight) { errno = EINVAL; return -1; }   (fix 18dcd81; a recursive call taking this
+       exit has written nothing and its return value is ignored, which distrib_loop already says) *)
+    if tot_weight es =? 0 then ((-1)%Z, 1, D_ok [])
+    else
+    (0%Z, 0, match distrib_loop until rv es n with
              | D_ok slots => D_ok (pad n slots)
              | err => err
              end).
